@@ -365,6 +365,10 @@ func (ex *Exec) RunEntry(name string) *EntryResult {
 				}
 			case Blocked:
 				res.Blocked++
+				if ex.Spec.AllowBlock {
+					// a server loop waiting for its next event: a normal end of the explored prefix
+					break
+				}
 				n.status = Running
 				func() {
 					defer func() { recover() }()
